@@ -292,7 +292,11 @@ def run_fit(spec, want_abs):
         model2 = search2 = None
         try:
             model2 = from_dict(json.loads(json.dumps(to_dict(model))))
-            if want_abs:
+            w2 = walk_observables(model2)
+            if "raised" in w2:          # e.g. an attribute silently left at a ConfigException placeholder
+                out["model_raised"] = w2["raised"]
+                out["raised"], out["msg"], out["stage"] = w2["raised"], w2.get("msg"), "reload"
+            elif want_abs:
                 out["abs_model"] = abs_obj(model2, {})
         except BaseException as e:  # noqa
             out["model_raised"] = exc_name(e)
